@@ -544,6 +544,32 @@ SCENARIOS = {"budget": scen_budget, "groups": scen_groups, "reuse": scen_reuse, 
              "cycles": scen_cycles}
 
 
+def with_extend(lines, typ, r, stats):
+    """`Extend::extend` (FuturesOrdered / FuturesOrderedBounded): in half of their histories runs of
+    plain `push` lines are marked `#!extend N` - a directive for the harness only, which then
+    executes them as the elements of one `extend` call; for every other reader of the history
+    (the model included) it is a comment and the pushes are N separate operations."""
+    if typ not in ("FO", "FOB") or r.random() < 0.5:
+        return lines
+    out, i = [], 0
+    while i < len(lines):
+        if lines[i].startswith("push "):
+            j = i
+            while j < len(lines) and lines[j].startswith("push "):
+                j += 1
+            n = j - i
+            if r.random() < 0.75:
+                k = n if r.random() < 0.7 else r.randrange(1, n + 1)
+                out.append("#!extend %d" % k)
+                stats["extend_calls"] = stats.get("extend_calls", 0) + 1
+                stats["extend_elems"] = stats.get("extend_elems", 0) + k
+            out += lines[i:j]
+            i = j
+        else:
+            out.append(lines[i]); i += 1
+    return out
+
+
 def main():
     ap = argparse.ArgumentParser()
     ap.add_argument("--seed", type=int, default=0)
@@ -569,6 +595,7 @@ def main():
             else:
                 g = Gen(rng, PROFILES[pn], stats)
                 lines = g.history("%s%d_%s_%s" % (a.prefix, i, pn, typ), typ)
+            lines = with_extend(lines, typ, random.Random("ext/%s/%d/%d" % (a.profile, a.seed, i)), stats)
             f.write("\n".join(lines) + "\n")
     stats["count"] = a.count
     stats["seed"] = a.seed
